@@ -336,6 +336,69 @@ func (c *Ctx) checkDoubleChecked(rule string, eng *lockEngine) {
 					}
 				}
 			}
+			// every other value the function returns is an entry of the same map (found by the probe or by
+			// the re-check): a metric taken from anywhere else - another scope, the no-op scope - is not
+			// registered here, so what is recorded on it never shows up in a report or a snapshot
+			if im.typ == "scope" {
+				var isEntry func(v ssa.Value, depth int) bool
+				isEntry = func(v ssa.Value, depth int) bool {
+					if depth == 0 {
+						return false
+					}
+					switch x := canon(stripConv(v)).(type) {
+					case *ssa.Lookup:
+						lf, _ := loadedField(x.X)
+						return lf == f
+					case *ssa.Extract:
+						if lk, isLk := x.Tuple.(*ssa.Lookup); isLk {
+							lf, _ := loadedField(lk.X)
+							return lf == f
+						}
+						if call, isCall := x.Tuple.(*ssa.Call); isCall {
+							g := staticCallee(call)
+							if g == nil || !c.inModule(g) || g.Blocks == nil {
+								return false
+							}
+							k := 0
+							for _, r := range returnsOf(g) {
+								if x.Index >= len(r.Results) {
+									return false
+								}
+								for _, va := range resultValues(r, x.Index) {
+									k++
+									if !isEntry(va.Val, depth-1) {
+										return false
+									}
+								}
+							}
+							return k > 0
+						}
+					case *ssa.Phi:
+						for _, e := range x.Edges {
+							if !isEntry(e, depth-1) {
+								return false
+							}
+						}
+						return len(x.Edges) > 0
+					}
+					return false
+				}
+				for _, r := range returnsOf(fn) {
+					if len(r.Results) != 1 {
+						continue
+					}
+					for _, va0 := range resultValues(r, 0) {
+						for _, va := range expandPhis(va0, 3) {
+							v := canon(stripConv(va.Val))
+							if v == created || isEntry(v, 3) {
+								continue
+							}
+							okRet = false
+							c.bad(rule, key+":foreign", va.At.Pos(), "the function hands out a metric that is neither the entry found in "+im.field+" nor the one it has just inserted there (e.g. a metric of another scope or of the no-op scope): the scope does not know it, so what is recorded on it is never reported and never appears in a snapshot", c.describe(va.At))
+						}
+					}
+				}
+			}
 			if okAlloc && okRet {
 				if viaDelete {
 					c.ok(rule, key, in.Pos(), "inserted after a same-key lookup made under the write lock, on its miss edge or after deleting the entry found, without releasing the lock")
